@@ -53,7 +53,7 @@ def cases(tier, seed):
   for i in range(n_cov):
     out.append({'kind': 'cov', 'i': i, 'seed': seed,
                 'mode': ['full', 'dupcol', 'n<=d', 'd=1', 'zero-var',
-                         'wide-scales'][i % 6]})
+                         'wide-scales', 'd=1-zero-var'][i % 7]})
   for i in range(n_rca):
     out.append({'kind': 'rca', 'i': i, 'seed': seed,
                 'supervised': bool(i % 3 == 2)})
@@ -109,6 +109,9 @@ def _cov(spec, j):
     X = X[:, :1]
   elif mode == 'zero-var':
     X[:, 0] = 2.5
+  elif mode == 'd=1-zero-var':
+    # a single feature that does not vary: the pseudo-inverse of [[0]] is 0
+    X = np.full((len(X), 1), [2.5, 0.0, -1e3][spec['i'] % 3])
   det = {'mode': mode, 'shape': X.shape}
   with Quiet():
     try:
